@@ -22,6 +22,7 @@ type Conn struct {
 	readErr         error
 	ReadErrAt       int // the k-th Read call (1-based) fails with ErrInjected
 	WriteErrAt      int // the k-th Write call (1-based) fails with ErrInjected
+	WritePartialAt  int // the k-th Write call (1-based) takes half of the bytes and fails with a temporary net.Error
 	closedLocal     bool
 	nReads, nWrites int
 
@@ -48,6 +49,16 @@ type WriteRec struct {
 }
 
 var ErrInjected = errors.New("verif: injected socket error")
+
+// ErrPartial is what a partial write reports: a net.Error that calls itself temporary (as a write that ran into
+// a deadline does).
+type errPartial struct{}
+
+func (errPartial) Error() string   { return "verif: injected partial write (temporary)" }
+func (errPartial) Timeout() bool   { return true }
+func (errPartial) Temporary() bool { return true }
+
+var ErrPartial net.Error = errPartial{}
 var errClosed = errors.New("use of closed network connection")
 
 type vaddr string
@@ -148,7 +159,7 @@ func (c *Conn) Read(b []byte) (int, error) {
 }
 
 func (c *Conn) writeReady() bool {
-	return c.closedLocal || (c.WriteErrAt > 0 && c.nWrites+1 == c.WriteErrAt) || c.PipeCap == 0 || c.pipeUsed < c.PipeCap
+	return c.closedLocal || (c.WriteErrAt > 0 && c.nWrites+1 == c.WriteErrAt) || (c.WritePartialAt > 0 && c.nWrites+1 == c.WritePartialAt) || c.PipeCap == 0 || c.pipeUsed < c.PipeCap
 }
 
 func (c *Conn) Write(b []byte) (int, error) {
@@ -172,6 +183,16 @@ func (c *Conn) Write(b []byte) (int, error) {
 	name := ""
 	if s.cur != nil {
 		name = s.cur.Name
+	}
+	if c.WritePartialAt > 0 && c.nWrites == c.WritePartialAt && len(b) > 1 {
+		n := len(b) / 2
+		c.Writes = append(c.Writes, WriteRec{Data: string(b[:n]), At: s.now, Task: name})
+		c.pipeUsed += n
+		s.event(0x414^HashString(string(b[:n])), &c.out, true)
+		if c.OnFault != nil {
+			c.OnFault("write-error")
+		}
+		return n, ErrPartial
 	}
 	c.Writes = append(c.Writes, WriteRec{Data: string(b), At: s.now, Task: name})
 	c.pipeUsed += len(b)
@@ -359,6 +380,17 @@ func (c *Conn) FailNextWrite() {
 	s.point(&Op{Kind: "srv.FailNextWrite", Obj: &c.out})
 	c.WriteErrAt = c.nWrites + 1
 	s.event(0x445, &c.out, true)
+}
+
+// FailNextWritePartially makes the next (or a currently blocked) Write take half of its bytes and fail with ErrPartial.
+func (c *Conn) FailNextWritePartially() {
+	s, mode := cur()
+	if mode != modeSched {
+		return
+	}
+	s.point(&Op{Kind: "srv.FailNextWritePartially", Obj: &c.out})
+	c.WritePartialAt = c.nWrites + 1
+	s.event(0x447, &c.out, true)
 }
 
 // NWrites is the number of Write calls made so far.
